@@ -66,17 +66,18 @@ theorem single_atomic (lk : Lock) (f : σ → σ × ρ) : (Prog.atomic lk f).sin
 
 /-- the invariant of `single_section_atomic` -/
 def SeqInv (prog : ι → Prog σ ρ) (s0 : σ) (c : Cfg ι σ ρ) : Prop :=
-  (∀ t it, it ∈ c.thr t → it.rem = prog it.op) ∧
+  (∀ t it, it ∈ c.thr t → it.rem = prog it.op ∧ (prog it.op).single) ∧
   seqRun prog (c.log.map (·.2.1)) s0 = (c.st, c.log.map (·.2.2))
 
-theorem seqInv_step (prog : ι → Prog σ ρ) (hs : ∀ i, (prog i).single) (s0 : σ) (c : Cfg ι σ ρ) (t : Nat)
+theorem seqInv_step (prog : ι → Prog σ ρ) (s0 : σ) (c : Cfg ι σ ρ) (t : Nat)
     (h : SeqInv prog s0 c) : SeqInv prog s0 (step c t) := by
   obtain ⟨hq, hl⟩ := h
   cases hth : c.thr t with
   | nil => rw [step_nil hth]; exact ⟨hq, hl⟩
   | cons it rest =>
-    have hrem : it.rem = prog it.op := hq t it (by simp [hth])
-    have hrest : ∀ u it', it' ∈ setThr c.thr t rest u → it'.rem = prog it'.op := by
+    have hrem : it.rem = prog it.op := (hq t it (by simp [hth])).1
+    have hs : (prog it.op).single := (hq t it (by simp [hth])).2
+    have hrest : ∀ u it', it' ∈ setThr c.thr t rest u → it'.rem = prog it'.op ∧ (prog it'.op).single := by
       intro u it' hm
       by_cases e : u = t
       · subst e; rw [setThr_same] at hm; exact hq u it' (by simp [hth, hm])
@@ -88,7 +89,7 @@ theorem seqInv_step (prog : ι → Prog σ ρ) (hs : ∀ i, (prog i).single) (s0
       simp only [List.map_append, List.map_cons, List.map_nil]
       rw [seqRun_snoc, hl, hp]; simp [Prog.run]
     | sec lk upd next =>
-      have hsingle := hs it.op
+      have hsingle := hs
       rw [hp] at hsingle
       obtain ⟨r, hr⟩ := hsingle c.st
       rw [step_sec_done hth (hrem.trans hp) hr]
@@ -96,18 +97,19 @@ theorem seqInv_step (prog : ι → Prog σ ρ) (hs : ∀ i, (prog i).single) (s0
       simp only [List.map_append, List.map_cons, List.map_nil]
       rw [seqRun_snoc, hl, hp]; simp [Prog.run, hr]
 
-theorem seqInv_exec (prog : ι → Prog σ ρ) (hs : ∀ i, (prog i).single) (s0 : σ) (sched : List Nat) :
+theorem seqInv_exec (prog : ι → Prog σ ρ) (s0 : σ) (sched : List Nat) :
     ∀ c : Cfg ι σ ρ, SeqInv prog s0 c → SeqInv prog s0 (exec c sched) := by
   induction sched with
   | nil => intro c h; exact h
-  | cons t r ih => intro c h; rw [exec_cons]; exact ih _ (seqInv_step prog hs s0 c t h)
+  | cons t r ih => intro c h; rw [exec_cons]; exact ih _ (seqInv_step prog s0 c t h)
 
-theorem seqInv_init (prog : ι → Prog σ ρ) (ops : Nat → List ι) (s0 : σ) : SeqInv prog s0 (init prog ops s0) := by
+theorem seqInv_init (prog : ι → Prog σ ρ) (ops : Nat → List ι) (hs : ∀ t i, i ∈ ops t → (prog i).single) (s0 : σ) :
+    SeqInv prog s0 (init prog ops s0) := by
   refine ⟨?_, ?_⟩
   · intro t it hm
     simp only [init, List.mem_map] at hm
-    obtain ⟨i, _, rfl⟩ := hm
-    rfl
+    obtain ⟨i, hi, rfl⟩ := hm
+    exact ⟨rfl, hs t i hi⟩
   · simp [init, seqRun]
 
 /-! ## program order: a thread's completed ops followed by its remaining ops are its op list -/
@@ -387,6 +389,43 @@ theorem rel_init (ops : Nat → List ι) (s0 : σ) :
     · have hi' : K.is i = false := by simpa using hi
       refine Or.inl ⟨hi', ?_⟩
       simp [CtaOps.fuse, hi']
+
+/-! ### a decidable sufficient form of the side condition (finitely many active threads) -/
+
+theorem step_keeps_idle (c : Cfg ι σ ρ) (t : Nat) (us : List Nat) (h : ∀ u, u ∉ us → c.thr u = []) :
+    ∀ u, u ∉ us → (step c t).thr u = [] := by
+  intro u hu
+  cases hth : c.thr t with
+  | nil => rw [step_nil hth]; exact h u hu
+  | cons it rest =>
+    have hne : u ≠ t := by
+      intro e; subst e
+      rw [h u hu] at hth; cases hth
+    cases hr : it.rem with
+    | done r => rw [step_done hth hr]; simp only [setThr_other _ _ hne]; exact h u hu
+    | sec lk upd next =>
+      cases hn : next c.st with
+      | done r => rw [step_sec_done hth hr hn]; simp only [setThr_other _ _ hne]; exact h u hu
+      | sec lk' upd' next' => rw [step_sec_sec hth hr hn]; simp only [setThr_other _ _ hne]; exact h u hu
+
+theorem stable_of_stableB (us : List Nat) (sched : List Nat) :
+    ∀ c : Cfg ι σ ρ, (∀ u, u ∉ us → c.thr u = []) → K.stableB c us sched = true → K.stable c sched := by
+  induction sched with
+  | nil => intro c _ _; trivial
+  | cons t r ih =>
+    intro c hidle hb
+    simp only [CtaOps.stableB, Bool.and_eq_true] at hb
+    refine ⟨?_, ih _ (step_keeps_idle c t us hidle) hb.2⟩
+    intro u hu it rest e h1 h2 h3
+    by_cases hm : u ∈ us
+    · have := List.all_eq_true.mp hb.1 u hm
+      simp only [e, Bool.or_eq_true, beq_iff_eq] at this
+      rcases this with x | x
+      · exact absurd x hu
+      · rcases x with x | x
+        · simp [h1, h2, h3] at x
+        · exact x
+    · rw [hidle u hm] at e; cases e
 
 end cta
 
